@@ -95,7 +95,7 @@ Lemma tie_client_install c h pt :
   if negb (cc_head c)
   then interp_install (lookup_install (pt_pat_of pt) CLIENT_INSTALL) (pt_kind pt) c conn
   else interp_install CLIENT_INSTALL_HEAD None c conn.
-Proof. unfold codec_of. destruct (cc_head c), pt; reflexivity. Qed.
+Proof. unfold codec_of. destruct c as [p cn hd st]. cbn [cc_head cc_conn cc_stream]. destruct hd, pt; reflexivity. Qed.
 
 (* ---- (b') ClientPayloadCodec::decode and decode_eof --------------------------------------- *)
 Definition pc_pat_of (it : option pitem) : pc_pat :=
